@@ -48,7 +48,7 @@ def step_of(state_text, lbl):
     if name == "ConnFail":
         return {"a": "up", "s": a[0], "fail": True}
     if name == "Update":
-        return {"a": "resp", "s": a[0], "t": 2, "res": [{"n": n, "v": "u#"} for n, v in sorted(a[1].items()) if v != "absent"]}
+        return {"a": "resp", "s": a[0], "t": 2, "res": [{"n": n, "v": "u#" if v == "v" else "bad#"} for n, v in sorted(a[1].items()) if v != "absent"]}
     raise Inconclusive("unknown action label " + lbl)
 
 
@@ -76,7 +76,12 @@ def run(ctx):
     binary = ctx.go_build(X.PKG)
     if not X.dev("noreplay"):
         g = ctx.dump_graph("XdsFallbackMC", ctx.pick("XdsFallbackGen.cfg", "XdsFallbackGenBig.cfg"))
-        behs = X.clean(ctx.edge_cover(g, step_of, limit=ctx.pick(1500, 15000)), ns=3)
+        behs = X.clean(ctx.edge_cover(g, step_of, mode="paths"), ns=3)
+        lim = ctx.pick(4000, 20000)
+        ctx.log("behaviours: %d (limit %d)" % (len(behs), lim))
+        if len(behs) > lim:
+            ctx.rng.shuffle(behs)
+            behs = behs[:lim]
         tpath = X.replay(ctx, binary, behs, "replay")
         validate(ctx, tpath, "replay of TLC behaviours")
     tpath2 = X.random_runs(ctx, binary, "fb", ctx.pick(250, 4000), "random")
